@@ -831,6 +831,35 @@ def _inlinable_helper(name, globs, caller_name):
     return _helper_node(f, name)
 
 
+def _x8_tailify(stmts):
+    """x8: the statement list with every `return` in tail position — `if c: A` (A does not fall through) followed by `rest`
+    becomes `if c: A else: rest`, recursively — or None when that is not possible (a `return` inside a loop / `try` / `with`,
+    a path that falls off the end, a bare `return`).  The result's last statement is a `return e` or an `if` both of whose
+    branches are such lists or end in `raise`."""
+    def has_ret(x):
+        return any(isinstance(n, ast.Return) for n in ast.walk(x))
+    out = []
+    for i, st in enumerate(stmts):
+        rest = stmts[i + 1:]
+        if isinstance(st, ast.Return):
+            return out + [st] if st.value is not None else None          # what follows is dead
+        if isinstance(st, ast.Raise):
+            return out + [st]
+        if isinstance(st, ast.If) and (has_ret(st) or not _falls_through([st])):
+            b_ft, e_ft = _falls_through(st.body), (_falls_through(st.orelse) if st.orelse else True)
+            if b_ft and e_ft:
+                return None                                   # a `return` somewhere inside, yet both arms go on
+            body = _x8_tailify(st.body + (rest if b_ft else []))
+            orelse = _x8_tailify(st.orelse + (rest if e_ft else []))
+            if body is None or orelse is None:
+                return None
+            return out + [ast.copy_location(ast.If(test=st.test, body=body, orelse=orelse), st)]
+        if has_ret(st):
+            return None
+        out.append(st)
+    return None                                               # falls off the end: an implicit `return None`
+
+
 def _helper_node(f, name):
     try:
         node = ast.parse(textwrap.dedent(inspect.getsource(f))).body[0]
@@ -844,10 +873,17 @@ def _helper_node(f, name):
     body = list(node.body)
     if body and isinstance(body[0], ast.Expr) and isinstance(body[0].value, ast.Constant) and isinstance(body[0].value.value, str):
         body = body[1:]
-    if not body or not isinstance(body[-1], ast.Return) or body[-1].value is None:
+    if not body:
         return None
-    for n in ast.walk(ast.Module(body=body[:-1], type_ignores=[])):
-        if isinstance(n, (ast.Return, ast.Yield, ast.YieldFrom, ast.Global, ast.Nonlocal, ast.FunctionDef, ast.ClassDef,
+    if not isinstance(body[-1], ast.Return) or body[-1].value is None \
+            or any(isinstance(n, ast.Return) for n in ast.walk(ast.Module(body=body[:-1], type_ignores=[]))):
+        # x8: early returns — accepted when `if c: …return` / rest  ≡  `if c: …return` / `else: rest` brings every `return`
+        # into tail position (none inside a loop), see `_x8_tailify`
+        body = _x8_tailify(body)
+        if body is None:
+            return None
+    for n in ast.walk(ast.Module(body=body, type_ignores=[])):
+        if isinstance(n, (ast.Yield, ast.YieldFrom, ast.Global, ast.Nonlocal, ast.FunctionDef, ast.ClassDef,
                           ast.Lambda, ast.AsyncFunctionDef, ast.Await, ast.Try, ast.With)):
             return None
     for n in ast.walk(node):
@@ -886,8 +922,17 @@ def _inline_helpers(fn, globs, counter=None, depth=0, owner=None):
             return st.value, lambda e: ast.copy_location(ast.AnnAssign(target=st.target, annotation=st.annotation, value=e, simple=st.simple), st)
         if isinstance(st, ast.Return) and isinstance(st.value, ast.Call):
             return st.value, lambda e: ast.copy_location(ast.Return(value=e), st)
+        if isinstance(st, ast.Expr) and isinstance(st.value, ast.Call) and isinstance(st.value.func, ast.Attribute) \
+                and st.value.func.attr == "append" and isinstance(st.value.func.value, ast.Name) and len(st.value.args) == 1 \
+                and not st.value.keywords and isinstance(st.value.args[0], ast.Call) \
+                and _always_fresh_list(fn, st.value.func.value.id):
+            # x8: `xs.append(_h(…))`, xs a list built here (looking `append` up cannot fail or run code)
+            return st.value.args[0], lambda e: ast.copy_location(ast.Expr(value=ast.Call(
+                func=st.value.func, args=[e], keywords=[])), st)
         if isinstance(st, ast.Expr) and isinstance(st.value, ast.Call):
             return st.value, lambda e: ast.copy_location(ast.Expr(value=e), st)
+        if isinstance(st, ast.Raise) and isinstance(st.exc, ast.Call) and st.cause is None:      # x8: `raise _h(…)`
+            return st.exc, lambda e: ast.copy_location(ast.Raise(exc=e, cause=None), st)
         return None, None
 
     assigned_in_caller = {n for s in _walk_scope(fn.body) for n in _targets_of(s)}
@@ -950,8 +995,14 @@ def _inline_helpers(fn, globs, counter=None, depth=0, owner=None):
         for v in (assigned | loopvars) - set(params):
             mapping[v] = tag + v
         body = [_Renamer(mapping).visit(copy.deepcopy(s)) for s in h.body]
-        ret = body.pop()
-        out = pre + body + [rebuild(ret.value)]
+        def retarget(stmts):                                   # x8: every tail `return e` becomes the statement with `e`
+            last = stmts[-1]
+            if isinstance(last, ast.Return):
+                return stmts[:-1] + [copy.deepcopy(rebuild(last.value))]
+            if isinstance(last, ast.If):
+                last.body, last.orelse = retarget(last.body), retarget(last.orelse)
+            return stmts
+        out = pre + retarget(body)
         for s in out:
             for n in ast.walk(s):
                 ast.copy_location(n, st) if not hasattr(n, "lineno") else None
@@ -2250,6 +2301,8 @@ class Fn:
             if isinstance(op, (ast.In, ast.NotIn)):
                 lv = self.val(l)
                 special = self.x3_in(lv, r)
+                if special is None:
+                    special = self.x4_in_constant(lv, r)         # x8: a named constant set in expression position as well
                 if special is not None:
                     neg = "!" if isinstance(op, ast.NotIn) else ""
                     return False, f"(do pure (PyVal.bool ({neg}(← {special}))))"
